@@ -36,20 +36,30 @@ class Context(object):
 
 def gen_chart(rp, dm=None, features=None, max_states=10):
     dm = dm or rp.choice(["null", "lua", "promela"])
+    features = dict(features or {})
+    par_p = features.pop("par_p", 0.3)
+    if "par_bias" not in features and rp.random() < par_p:
+        features["par_bias"] = True
+        features["small_alphabet"] = True
     g = gen.Gen(rp, dm, max_states=max_states, features=features)
-    return g.build()
+    root = g.build()
+    root.meta = dict(root.meta or {}, par_bias=bool(features.get("par_bias")))
+    return root
 
 
-def history_ops(rp, i=0):
+def history_ops(rp, i=0, many=None):
     ops = []
     ops.append({"op": "run", "i": i, "block": 0, "until": ["IDLE"], "max": 120})
-    for _ in range(rp.randint(0, 10)):
+    r = rp.random()
+    if many is None:
+        many = r < 0.3      # long histories over a small alphabet: the same situation recurs
+    for _ in range(rp.randint(0, 10) if not many else rp.randint(10, 24)):
         x = rp.random()
         if x < 0.3:
             ops.append({"op": "sleep", "ms": rp.choice([1, 2, 5, 10, 11, 30])})
             ops.append({"op": "run", "i": i, "block": 0, "until": ["IDLE"], "max": 120})
         else:
-            ops.append({"op": "recv", "i": i, "name": rp.choice(gen.EXT_EVENTS + ["a", "b", "zz"])})
+            ops.append({"op": "recv", "i": i, "name": rp.choice(gen.EXT_EVENTS + ["a", "b", "zz"]) if not many else rp.choice(["a", "b", "a", "b", "a.x"])})
             if rp.random() < 0.7:
                 ops.append({"op": "run", "i": i, "block": 0, "until": ["IDLE"], "max": 120})
     ops.append({"op": "sleep", "ms": 60})
@@ -63,9 +73,9 @@ def gen_plan(seed, k, engine=None, dm=None, features=None):
     rp = usimlib.substream(seed, "plan")
     root = gen_chart(rp, dm, features)
     ops = [{"op": "create", "i": 0, "chart": "main", "engine": engine or ENGINE}, {"op": "validate", "i": 0}]
-    ops += history_ops(rp)
+    ops += history_ops(rp, many=(True if (root.meta or {}).get('par_bias') and rp.random() < 0.8 else None))
     return {"id": k, "seed": seed, "entropy_seed": seed & 0x7fffffff,
-            "sched": {"seed": seed & 0x7fffffff, "policy": "nonpreempt", "max_decisions": 400000},
+            "sched": {"seed": seed & 0x7fffffff, "policy": "nonpreempt", "max_decisions": 400000}, "step_budget": 900,
             "charts": {"main": root.xml()}, "actors": {"main": ops}}
 
 
@@ -89,6 +99,7 @@ def oracle(plan, res):
     v += rv
     info["microsteps"] = rinfo["microsteps"]
     info["events"] = rinfo["events"]
+    info["probes"] = rinfo.get("probes", {})
     info["nontrivial"] = rinfo["microsteps"] >= 3 and rinfo["events"] >= 2
     return v, info
 
@@ -109,6 +120,8 @@ def run_one(ctx, usim, seed, k, acc):
     acc.count("charts_rejected_by_validate", 1 if info["fatal"] else 0)
     acc.count("probe.microsteps_compared", info["microsteps"])
     acc.count("probe.events_compared", info["events"])
+    for pk, pv in info.get("probes", {}).items():
+        acc.count("probe.microsteps_" + pk, pv)
     acc.count("probe.timers_fired", end.get("ev_fired", 0))
     acc.count("fault.none_injected_fault_free_histories", 1)
     if info["nontrivial"]:
@@ -163,6 +176,7 @@ def _first_div_seq(v):
 def classify(rule, detail, plan, fail_elems=None):
     import re
     m = re.search(r"enabled=(\[.*\])$", detail)
+    enabled = []
     if not rule.startswith("C01.") or "[" in rule:
         return None
     if m and rule.split(".")[1] in ("exit", "entry", "content", "log", "raise", "send", "configuration", "transition"):
@@ -186,7 +200,19 @@ def classify(rule, detail, plan, fail_elems=None):
         return None
     for (variant, fid) in VARIANTS:
         root = gen.from_xml(plan["charts"]["main"])
-        s = _first_div_seq(refine.refine(root, plan, res, variant=(variant,), fail_elems=fail_elems)[0])
+        vv = refine.refine(root, plan, res, variant=(variant,), fail_elems=fail_elems)[0]
+        s = _first_div_seq(vv)
         if s is None or s > base:
             return fid
+        # two deviations in the same microstep: the variant changes the selection, and what then differs is the history target
+        for (r2, d2) in vv:
+            m2 = re.search(r"enabled=(\[.*\])$", d2)
+            if r2.startswith("C01.") and m2 and r2.split(".")[1] in ("exit", "entry", "content", "log", "raise", "send", "configuration", "transition"):
+                try:
+                    en2 = json.loads(m2.group(1))
+                except ValueError:
+                    en2 = []
+                if en2 and en2 != (enabled if m else None) and history_of_active_parent(plan["charts"]["main"], en2):
+                    return "C01-transition-into-history-of-active-parent"
+            break
     return None
